@@ -184,3 +184,30 @@ func zzMarkerNonMeta(name string) byte {
 	zzAssume(id == 0xe0 || id == 0xe1 || id == 0xe2 || id == 0xed || id == 0xe5 || id == 0xef || id == 0xfe || id == 0xc0 || id == 0xc2)
 	return byte(zzConc(uint64(id), 16))
 }
+
+// segments whose 16-bit length is at the top of the range, two Exif segments in one stream (absolute offsets after a
+// metadata segment), part = declared length of the leading COM segment
+func zzC10_bigseg_N() int { return 4 }
+func zzC10_bigseg() {
+	size := []int{40, 0xfffd, 0xfffe, 0xffff}[zzPart()]
+	e1, e2 := zzBytes("e1", 12), zzBytes("e2", 12)
+	b := make([]byte, 0, size+200)
+	b = append(b, 0xff, 0xd8, 0xff, 0xfe, byte(size>>8), byte(size))
+	b = append(b, make([]byte, size-2)...)
+	b = append(b, 0xff, 0xe1, 0, 2+6+12)
+	b = append(b, "Exif\x00\x00"...)
+	at1 := len(b)
+	b = append(b, e1...)
+	b = append(b, 0xff, 0xe1, 0, 2+6+12)
+	b = append(b, "Exif\x00\x00"...)
+	at2 := len(b)
+	b = append(b, e2...)
+	b = append(b, 0xff, 0xdb, 0, 2)
+	b = append(b, make([]byte, 70)...)
+	rec, err := zzC10_run(b, nil, nil, -1)
+	zzAssert(err == nil, "a well-formed stream with a maximal-length segment scans without error")
+	zzAssert(rec.exifCalls == 2, "both Exif segments after the long segment are delivered")
+	zzAssert(int(rec.hdr[0].TiffHeaderOffset) == at1 && int(rec.hdr[1].TiffHeaderOffset) == at2, "absolute offsets of both payloads (the second follows a consumed Exif segment)")
+	zzAssert(rec.hdr[0].ByteOrder == zzOrder(e1) && rec.hdr[1].ByteOrder == zzOrder(e2), "byte orders of both payloads")
+	zzReached("end")
+}
